@@ -880,6 +880,10 @@ class Walk:
         rng, s = self.rng, self.s
         qos = rng.choice([0, 1, 2])
         pid = rng.choice([1, 2, 3]) if qos else None
+        # inbound and outbound identifiers are separate number spaces: make them collide on purpose
+        live = sorted({d['pid'] for d in s.live_ops.values() if d.get('pid')})
+        if qos and live and rng.random() < 0.5:
+            pid = rng.choice(live)
         mode = rng.choice(self.subid_modes)
         ps = []
         if mode == 'reg' and s.subs:
@@ -1063,6 +1067,41 @@ def fam_C09(rng, tier):
             out.append(s.script())
     out += fam_walk(rng, tier, 'c09-walk', 30 if tier == 'quick' else 1000, 60,
                     weights=dict(pub0=0, pub1=1, pub2=0, sub=2, unsub=0, ping=0, ack=3, inbound=10, pubrel=6, stream=3),
+                    subid_modes=['reg'])
+    # other traffic with the SAME identifier numbers in the opposite direction (outbound QoS 1/2 exchanges and their
+    # acknowledgements) interleaved with deliveries, re-deliveries and releases: the SUBSCRIBE takes identifier 1, so the
+    # outbound publishes get 2, 3, ... and the inbound messages use 2 and 3
+    syms2 = [('P', 2, 0), ('P', 2, 1), ('R', 2, 0), ('O', 2, 0), ('K', 0, 0)] + ([] if tier == 'quick' else [('O', 1, 0)])
+    L2 = 5 if tier == 'quick' else 6
+    for k in range(2, L2 + 1):
+        for seq in itertools.product(syms2, repeat=k):
+            kinds = {t for t, _, _ in seq}
+            if 'P' not in kinds or 'O' not in kinds or 'K' not in kinds:
+                continue
+            s = Sess(f'c09-x-{i}')
+            i += 1
+            s.connect()
+            op, sid = s.subscribed_stream()
+            pend = []           # outbound exchanges: [op, pid, qos, phase]
+            for n, (t, a, b) in enumerate(seq):
+                if t == 'P':
+                    s.feed(m.publish(b'a', bytes([65 + n]), 2, a, b, 0, [(11, sid)]))
+                elif t == 'R':
+                    s.feed(m.ack('pubrel', a))
+                elif t == 'O':
+                    o, pid = s.publish(a, 0, [], b'a')
+                    pend.append([o, pid, a, 0])
+                elif pend:
+                    e = pend[0]
+                    if e[2] == 1:
+                        s.feed(m.ack('puback', e[1])); pend.pop(0)
+                    elif e[3] == 0:
+                        s.feed(m.ack('pubrec', e[1])); e[3] = 1
+                    else:
+                        s.feed(m.ack('pubcomp', e[1])); pend.pop(0)
+            out.append(s.script())
+    out += fam_walk(rng, tier, 'c09-mix', 30 if tier == 'quick' else 1000, 60,
+                    weights=dict(pub0=0, pub1=2, pub2=4, sub=1, unsub=0, ping=0, ack=8, inbound=8, pubrel=4, stream=2),
                     subid_modes=['reg'])
     return out
 
